@@ -27,7 +27,7 @@ func DefaultWorld() World {
 		HostMAC:   ref.MAC{0x00, 0xff, 0x03, 0x04, 0x05, 0x01},
 		RouterMAC: ref.MAC{0x00, 0xff, 0x03, 0x04, 0x05, 0x11},
 		Clients: []ref.MAC{{0x00, 0x02, 0x03, 0x04, 0x05, 0x01}, {0x00, 0x02, 0x03, 0x04, 0x05, 0x02},
-			{0x00, 0x02, 0x03, 0x04, 0x05, 0x03}, {0x00, 0x02, 0x03, 0x04, 0x05, 0x04}},
+			{0x00, 0x02, 0x03, 0x04, 0x15, 0x01}, {0x00, 0x02, 0x03, 0x14, 0x05, 0x01}}, // each differs from the first in one byte only
 		LAN:       netip.MustParsePrefix("192.168.0.0/24"),
 		HostIP:    netip.MustParseAddr("192.168.0.129"),
 		RouterIP:  netip.MustParseAddr("192.168.0.11"),
